@@ -255,24 +255,89 @@ fn oracle_matches(re: &Re, w: &[u8]) -> bool {
     ends(re, w, 0) >> w.len() & 1 == 1
 }
 
-/// expected tag set after `w` for choices (nested to any depth) of optionally tagged tag-free expressions:
-/// the tags of exactly the alternatives that match `w` (C15_tags through C15_tags_choice); `None` when the
-/// expression carries tags in other positions
-fn oracle_tags(re: &Re, w: &[u8]) -> Option<BTreeSet<u64>> {
+/// positions reachable from `i` by zero or more rounds of `e` (bit mask)
+fn loop_positions(e: &Re, w: &[u8], i: usize) -> u64 {
+    let mut reached: u64 = 1 << i;
+    let mut todo: u64 = 1 << i;
+    while todo != 0 {
+        let p = todo.trailing_zeros() as usize;
+        todo &= !(1 << p);
+        let m = ends(e, w, p) & !reached;
+        reached |= m;
+        todo |= m;
+    }
+    reached
+}
+
+/// tags completed at the END of `w` when `re` starts at position `i`: a tagged sub-expression has matched a
+/// suffix `w[p..]` and everything that must precede it has matched `w[i..p]` (reference for C15_tags_alive)
+fn alive(re: &Re, w: &[u8], i: usize, out: &mut BTreeSet<u64>) {
     match re {
-        Tag(t, body) if !body.has_tag() => {
-            Some(if oracle_matches(body, w) { BTreeSet::from([*t]) } else { BTreeSet::new() })
-        }
-        other if !other.has_tag() => Some(BTreeSet::new()),
-        Alt(es) => {
-            let mut tags = BTreeSet::new();
-            for e in es {
-                tags.extend(oracle_tags(e, w)?);
+        Tag(t, e) => {
+            if ends(e, w, i) >> w.len() & 1 == 1 {
+                out.insert(*t);
             }
-            Some(tags)
+            alive(e, w, i, out);
         }
+        Seq(es) => {
+            let mut cur: u64 = 1 << i;
+            for e in es {
+                let mut next = 0u64;
+                for p in 0..=w.len() {
+                    if cur >> p & 1 == 1 {
+                        alive(e, w, p, out);
+                        next |= ends(e, w, p);
+                    }
+                }
+                cur = next;
+                if cur == 0 {
+                    break;
+                }
+            }
+        }
+        Alt(es) => es.iter().for_each(|e| alive(e, w, i, out)),
+        Opt(e) => alive(e, w, i, out),
+        Plus(e) | Star(e) => {
+            let ps = loop_positions(e, w, i);
+            for p in 0..=w.len() {
+                if ps >> p & 1 == 1 {
+                    alive(e, w, p, out);
+                }
+            }
+        }
+        Lit(_) | Pred(_) | Empty | Nothing => {}
+    }
+}
+
+/// the tag on the stop state of the automaton of `re` (what a `tag_stop_state` around it would overwrite)
+fn stop_tag(re: &Re) -> Option<u64> {
+    match re {
+        Seq(es) => es.last().and_then(stop_tag),
+        Plus(e) => stop_tag(e),
+        Tag(t, _) => Some(*t),
         _ => None,
     }
+}
+
+/// no `tag_stop_state` lands on a state that already carries a tag
+fn no_retag(re: &Re) -> bool {
+    match re {
+        Seq(es) | Alt(es) => es.iter().all(no_retag),
+        Opt(e) | Plus(e) | Star(e) => no_retag(e),
+        Tag(_, e) => no_retag(e) && stop_tag(e).is_none(),
+        _ => true,
+    }
+}
+
+/// expected tag set after `w` — for every reachable state, accepting or not, and tags in any position
+/// (C15_tags_alive); `None` only when a tag is overwritten by another `tag_stop_state`
+fn oracle_tags(re: &Re, w: &[u8]) -> Option<BTreeSet<u64>> {
+    if !no_retag(re) {
+        return None;
+    }
+    let mut out = BTreeSet::new();
+    alive(re, w, 0, &mut out);
+    Some(out)
 }
 
 /// `MatcherTag::Matcher(i)` on the wire
@@ -346,10 +411,8 @@ impl Subject {
                 let mut tags = BTreeSet::new();
                 for (i, (parsed, re)) in ms.iter().enumerate() {
                     if *parsed {
-                        if re.has_tag() {
-                            return None;
-                        }
-                        if oracle_matches(re, w) {
+                        // Matcher(i): the matcher has matched, or one of its own (erased) tags is alive
+                        if oracle_matches(re, w) || !oracle_tags(re, w)?.is_empty() {
                             tags.insert(mk_tag(i));
                         }
                     } else {
@@ -567,6 +630,23 @@ fn gen_tagged(rng: &mut Rng, depth: usize) -> Re {
         .collect())
 }
 
+/// tagged sub-expressions that are NOT the last component: a tagged choice followed by a suffix, an optional
+/// tagged prefix, a tagged choice under a loop — the tags show on non-accepting states
+fn gen_tagged_inside(rng: &mut Rng, depth: usize) -> Re {
+    let d = depth.saturating_sub(2);
+    let choice = gen_tagged(rng, d);
+    let x = gen_re(rng, d);
+    let y = gen_re(rng, d);
+    match rng.below(6) {
+        0 => Seq(vec![x, choice, y]),
+        1 => Seq(vec![choice, y]),
+        2 => Seq(vec![Opt(Box::new(Tag(rng.range(1, 9) as u64, Box::new(x)))), y]),
+        3 => Plus(Box::new(Seq(vec![choice, y]))),
+        4 => Seq(vec![Star(Box::new(choice)), y]),
+        _ => Alt(vec![Seq(vec![choice, x]), Tag(rng.range(1, 9) as u64, Box::new(y))]),
+    }
+}
+
 /// tags in arbitrary positions (exercises `tag_stop_state` + `merge_states` tag transport)
 fn sprinkle_tags(rng: &mut Rng, re: Re) -> Re {
     let re = match re {
@@ -648,6 +728,11 @@ fn corner_cases() -> Vec<Re> {
         Alt(vec![tag(1, l("\u{ff}")), tag(2, Pred(vec![(0xff, 0xff)])), tag(3, Seq(vec![Pred(vec![(0xc3, 0xc3)]), Pred(vec![(0x80, 0xbf)])]))]),
         star(Pred(vec![(0xfe, 0xff)])),
         Alt(vec![Alt(vec![tag(1, l("a")), tag(2, plus(l("a")))]), Alt(vec![tag(3, l("ab")), tag(1, star(l("a")))]), tag(4, l("b"))]),
+        // tags on components that are not the last one: reported on non-accepting states
+        Seq(vec![l("<"), Alt(vec![tag(1, l("a")), tag(2, plus(l("b"))), tag(3, l("ab")), tag(4, Seq(vec![l("a"), star(l("b"))]))]), l(">")]),
+        Seq(vec![opt(tag(7, l("x"))), l("y")]),
+        plus(Seq(vec![Alt(vec![tag(1, l("a")), tag(2, l("aa"))]), l("b")])),
+        Seq(vec![star(tag(3, Pred(vec![(b'0', b'9')]))), l(";")]),
         // shapes of the production grammars
         Seq(vec![l("\x1b["), plus(Seq(vec![plus(digit()), opt(l(";"))])), l("m")]),
         Seq(vec![l("\x1b["), plus(digit()), l(";"), plus(digit()), l("R")]),
@@ -1002,6 +1087,11 @@ impl Ctx {
                 words.push((0..rng.below(4)).map(|_| if alphabet.is_empty() { b'a' } else { *rng.pick(&alphabet) }).collect());
             }
         }
+        if lang.has_tag() {
+            // tags are judged on every state on the way, accepting or not
+            let prefixes: Vec<Vec<u8>> = words.iter().take(12).flat_map(|w| (0..w.len()).map(move |n| w[..n].to_vec())).collect();
+            words.extend(prefixes);
+        }
         words.sort();
         words.dedup();
 
@@ -1091,7 +1181,8 @@ fn main() {
                 let k = rng.range(1, 3) as usize;
                 (Subject::Expr(Alt((0..k).map(|_| gen_tagged(&mut rng, depth.saturating_sub(1))).collect())), "nested-tagged-choice")
             }
-            10 => (Subject::Production(gen_production(&mut rng, depth)), "production-shape"),
+            10 if made % 24 == 10 => (Subject::Production(gen_production(&mut rng, depth)), "production-shape"),
+            10 => (Subject::Expr(gen_tagged_inside(&mut rng, depth)), "tagged-inside"),
             _ => {
                 let e = gen_re(&mut rng, depth);
                 (Subject::Expr(sprinkle_tags(&mut rng, e)), "tags-anywhere")
@@ -1110,6 +1201,6 @@ fn main() {
         json!("bisimulation of the compiled DFA with the model's subset automaton: all reachable state pairs x all 256 bytes; all strings up to the recorded length over the effective alphabet against the Rust oracle"),
     );
     ctx.out.finish(
-        "expressions: fixed corner cases (optional/one-or-more/zero-or-more over operands that begin or end with a loop, empty sequence/choice, empty/nothing operands, tagged choices, production-like shapes) + random trees of depth <= 6 with <= 48 nodes over literals of a,b,c and multi-byte UTF-8 strings and byte predicates (upper half and 0xFF included), choices of tagged choices, and matchers combined as MatcherAutomata::new combines them (tags_map + tag_stop_state per parsed matcher, tags_map(Item) for item tables); non-trivial = at least 3 nodes; distinct by expression text. Per expression: NFA dump equality, exhaustive DFA bisimulation, all strings up to length L (budget-limited, L <= 6) over the effective alphabet, members and mutants",
+        "expressions: fixed corner cases (optional/one-or-more/zero-or-more over operands that begin or end with a loop, empty sequence/choice, empty/nothing operands, tagged choices, production-like shapes) + random trees of depth <= 6 with <= 48 nodes over literals of a,b,c and multi-byte UTF-8 strings and byte predicates (upper half and 0xFF included), choices of tagged choices, tagged sub-expressions that are not the last component (tags judged on every reachable state), and matchers combined as MatcherAutomata::new combines them (tags_map + tag_stop_state per parsed matcher, tags_map(Item) for item tables); non-trivial = at least 3 nodes; distinct by expression text. Per expression: NFA dump equality, exhaustive DFA bisimulation, all strings up to length L (budget-limited, L <= 6) over the effective alphabet, members and mutants",
     );
 }
